@@ -1,4 +1,9 @@
-"""C02 — lazy reader expressions commute with eager evaluation; no aliasing (DESIGN.md §5 C02)."""
+"""C02 — lazy reader expressions commute with eager evaluation; no aliasing (DESIGN.md §5 C02).
+
+What is compared: what INDEXING a reader expression yields (values, shape, dtype up to byte order) and that the
+expression is a reader. The ATTRIBUTES a derived reader carries (`shape`, `n_channels`, `dtype`, ... - a shallow copy
+keeps the parent's: `reader[:, [0, 2]].shape == (n, 3)`, `(reader / 2).dtype == int16`) are OUTSIDE the statement,
+which speaks of what indexing yields: no attribute of a derived reader is read here, by `impl` or by a judge."""
 import itertools
 import operator
 import numpy as np
@@ -13,17 +18,37 @@ RULE = ('derivation histories over {pos, neg, add, radd, sub, rsub, mul, rmul, t
         'floordiv, rfloordiv, pow, rpow, column-select} with int and float scalars: all programs of '
         'depth <= 2 (quick) / 3 (thorough) as chains, then random derivation TREES (parents re-read '
         'after each derivation, siblings, grandchildren, evaluation order permuted), on flat '
-        '(multi-file) / npy / array / cbin readers and 6 sample dtypes, followed by int / slice / list '
-        'row indices with optional channel selector. A case = one history; non-trivial = history with '
-        '>= 2 derivations and >= 2 evaluations')
+        '(multi-file) / npy (C- and Fortran-ordered) / array / cbin readers, 1..4 channels and 6 native + 3 byte-swapped '
+        'sample dtypes, followed by int / slice / list row indices (Python and NumPy-typed, in the chains too) with '
+        'optional channel selector. A case = one history; non-trivial = history with >= 2 derivations and >= 2 evaluations')
 ASSUMPTIONS = [
     'the numerical meaning and result dtype of each operator are NumPy\'s; the theorem is parametric in '
     'them; the harness applies the same NumPy operator eagerly (the property\'s own oracle)',
     'float `pow` is restricted to exponents {0,1,2} (NumPy SIMD pow is not bitwise reproducible across '
     'array shapes) and `rpow` is not applied to floating point readers, where a reader that became floating point through an '
     'earlier operator (true division, float operand) counts as one; histories on which eager NumPy itself raises are discarded as out of domain',
+    'dtype is compared UP TO BYTE ORDER (kind and item size exactly): "the fully loaded array" of a recording stored '
+    'byte-swapped (\'>i2\' files) has no byte order of its own - NumPy loads one file as \'>i2\' and concatenates several '
+    'into native int16 - and every arithmetic operator of NumPy (unary plus included) returns native byte order, so the two '
+    'readings differ only for programs WITHOUT an arithmetic operator (no-op, channel selections only), where the reader '
+    'returns native int16 and indexing the \'>i2\' array keeps \'>i2\': same values, same arithmetic type. The eager oracle '
+    'is applied to the array in its STORED byte order; the values must agree exactly',
+    'the attributes of a derived reader (shape / n_channels / dtype stay the parent\'s) are outside the statement, which '
+    'speaks of what indexing yields; none is read',
 ]
 DTYPES = ['int16', 'int32', 'int64', 'uint8', 'float32', 'float64']
+SWAPPED = ['>i2', '>f4', '>u4']        # non-native byte order (flat files, .npy, in-memory arrays)
+
+
+def _native(dtype):
+    """the dtype with the byte order removed (kind and item size)"""
+    return np.dtype(dtype).newbyteorder('=')
+
+
+def _pool_dtype(dtype):
+    """the name the operand pools are keyed by: unsigned types share uint8's pool (no negative operands)"""
+    dt = _native(dtype)
+    return 'uint8' if dt.kind == 'u' else dt.name
 BIN = {'add': lambda a, x: a + x, 'radd': lambda a, x: x + a, 'sub': lambda a, x: a - x,
        'rsub': lambda a, x: x - a, 'mul': lambda a, x: a * x, 'rmul': lambda a, x: x * a,
        'truediv': lambda a, x: a / x, 'rtruediv': lambda a, x: x / a,
@@ -52,7 +77,7 @@ def _base(n, nch, dtype, mode='ids'):
         else:
             pool = [0.1, -0.3, 1e-3, 123456.7, -0.0, 1 / 3, 2.5e6 + 0.1, 0.7, -1e-5, 5e-324 if dt.itemsize == 8 else 1e-38]
         return np.array([pool[i % len(pool)] for i in range(n * nch)]).astype(dtype).reshape((n, nch))
-    shift = 0 if dtype == 'uint8' else (n * nch) // 2
+    shift = 0 if np.dtype(dtype).kind == 'u' else (n * nch) // 2
     return (ids - shift).astype(dtype)
 
 
@@ -95,7 +120,8 @@ def _reader(case, d):
             paths.append(p)
         r = get_ephys_reader(paths, sample_rate=100., dtype=np.dtype(dtype), n_channels=nch, offset=case.get('offset', 0))
     elif b == 'npy':
-        np.save(d / 'a.npy', A)
+        # the same recording saved from a C-ordered or a Fortran-ordered array
+        np.save(d / 'a.npy', np.asfortranarray(A) if case.get('npy_order') == 'F' else A)
         r = get_ephys_reader(d / 'a.npy', sample_rate=100.)
     elif b == 'array':
         r = get_ephys_reader(A.copy(), sample_rate=100.)
@@ -112,8 +138,9 @@ def _reader(case, d):
 
 
 def _enc(x):
+    """values, shape and dtype UP TO BYTE ORDER (see ASSUMPTIONS) of a block"""
     x = np.asarray(x)
-    return dict(dtype=str(x.dtype), shape=list(x.shape), vals=[repr(v) for v in x.ravel().tolist()])
+    return dict(dtype=str(_native(x.dtype)), shape=list(x.shape), vals=[repr(v) for v in x.ravel().tolist()])
 
 
 def impl(case):
@@ -175,7 +202,7 @@ def impl(case):
         del readers, r
         if rd is not None:
             rd.close()
-    return dict(outs=outs, eager_failed=eager_failed, base=_enc(A))
+    return dict(outs=outs, eager_failed=eager_failed, base=dict(_enc(A), dtype=A.dtype.str))
 
 
 def model_query(case, impl_res):
@@ -198,6 +225,17 @@ def judge(case, impl_res, ans):
     m = ans['ok']
     if m.get('store_refines_heap') is False:
         return 'MACHINERY: the statement-level store of _append_op does not refine the abstract heap (contradicts appendOp_refines_derive)'
+    # the operation list every reader of the object store ends up with is its parent's plus its own step (what
+    # `appendOp_statements` proves), named operation by operation
+    want = [[]]
+    for k, s in enumerate(case['steps']):
+        if s['k'] == 'derive':
+            want.append(want[s['from']] + [{'tok': [k]}])
+        elif s['k'] == 'cols':
+            c = lean_cols(s['cols'])
+            want.append(want[s['from']] + [{'cols': 1 if 'idx' in c else 2}])
+    if m.get('ops') != want:
+        return 'MACHINERY: the operation lists of the object store are not parent + own step (contradicts appendOp_statements)'
     if 'raised' in impl_res:
         return 'SPEC: real code raised %s (%s) at %s while deriving readers' % (
             impl_res['raised'], impl_res['msg'], impl_res['where'])
@@ -238,9 +276,23 @@ def nontrivial(case):
 
 
 def tally(rep, case, impl_res, ans):
-    rep.count('backend:' + case['backend'])
+    rep.count('backend:' + case['backend'] + ('(F-ordered)' if case['backend'] == 'npy' and case.get('npy_order') == 'F' else ''))
     rep.count('dtype:' + case['dtype'])
-    rep.count('base_values:' + case.get('base', 'ids'))
+    rep.count('channels:%d' % case['nch'])
+    for st in case['steps']:
+        if st['k'] == 'eval':
+            rep.count('row_index:%s(%s)' % (next(iter(st['item'])), st.get('kind', 'py')))
+    if np.dtype(case['dtype']).byteorder == '>':
+        # evaluations of reader expressions WITHOUT an arithmetic operator on a byte-swapped recording: the only ones
+        # where indexing the stored array keeps '>' and the reader answers native (ASSUMPTIONS)
+        arith = [False]
+        for st in case['steps']:
+            if st['k'] in ('derive', 'cols'):
+                arith.append(arith[st['from']] or st['k'] == 'derive')
+            elif st['k'] == 'eval':
+                rep.count('byte-swapped recording: evaluation of %s' % (
+                    'an expression with an arithmetic operator' if arith[st['reader']] else
+                    'the recording itself / channel selections only (dtype equal up to byte order only)'))
     for st in case['steps']:
         if st['k'] == 'derive' and 'arg' in st:
             rep.count('operand:' + st.get('argkind', 'py') + ('(left)' if st['op'].startswith('r') else '(right)'))
@@ -314,6 +366,7 @@ def _goes_float(op, arg, argkind):
 
 
 def scalar_args(op, dtype, rng=None):
+    dtype = _pool_dtype(dtype)
     isint = not dtype.startswith('float')
     if op in ('pow',):
         return [0, 1, 2] + ([3] if isint else [])
@@ -326,6 +379,9 @@ def scalar_args(op, dtype, rng=None):
     if dtype == 'uint8':
         return [3, 1, 2.5, 0.1]
     return [3, -2, 2.5, 0, 0.1, 0.2]
+
+
+EVALKINDS = ['py', 'np', 'py', 'np:int32', 'py:step1', 'np:uint64', 'np:uint8']
 
 
 def items_for(n, rng, k=3, cbin=False):
@@ -350,13 +406,20 @@ def gen(tier, rng):
                 k += 1
                 if depth == 3 and k % 4:
                     continue
-                dtype = DTYPES[k % len(DTYPES)]
-                backend = ['flat', 'flat', 'array', 'npy', 'cbin'][k % 5] if dtype in ('int16',) else ['flat', 'array', 'npy'][k % 3]
+                # dtype, backend, channel count and file layout walk lists of pairwise coprime lengths (9, 5, 7, 4), so
+                # that every combination occurs (k % 6 with k % 3 tied each dtype to ONE backend)
+                dtype = (DTYPES + SWAPPED)[k % 9]
+                backend = ['flat', 'array', 'npy', 'flat', 'cbin'][k % 5]
+                npy_order = 'C'
+                if backend == 'cbin' and dtype != 'int16':
+                    backend, npy_order = 'npy', 'F'
+                elif backend == 'npy' and (k // 5) % 2:
+                    npy_order = 'F'
                 parts = [[2, 1, 3], [4], [1, 5], [3, 3]][k % 4] if backend == 'flat' else [6]
-                nch = 2 + (k % 3)
+                nch = [2, 3, 1, 4, 2, 1, 3][k % 7]          # single-channel recordings included
                 n = sum(parts)
                 steps, ok_chain, cur = [], True, 0
-                cur_float = dtype.startswith('float')
+                cur_float = _native(dtype).kind == 'f'
                 nch_cur = nch
                 for j, op in enumerate(chain):
                     if op == 'cols':
@@ -381,21 +444,24 @@ def gen(tier, rng):
                         cur_float = cur_float or _goes_float(op, arg, argkind)
                     cur += 1
                     # re-evaluate the new reader AND every ancestor after each derivation
+                    # every form of row index (whole / int / slice / index list), as Python and as NumPy-typed objects
                     for rdr in range(cur + 1):
-                        it = items_for(n, rng, 1, backend == 'cbin')[(k + rdr) % 3]
-                        steps.append({'k': 'eval', 'reader': rdr, 'item': it, 'kind': 'py'})
+                        its = items_for(n, rng, 1, backend == 'cbin')
+                        it = its[(k + j + rdr) % len(its)]
+                        kind = EVALKINDS[(k // 2 + j + rdr) % len(EVALKINDS)] if backend != 'cbin' else 'py'
+                        steps.append({'k': 'eval', 'reader': rdr, 'item': it, 'kind': kind})
                 if ok_chain:
-                    yield dict(p=PID, backend=backend, dtype=dtype, parts=parts, nch=nch, steps=steps,
-                               base=['ids', 'extreme'][(k // 2) % 2], offset=[0, 6, 0, 128][k % 4])
+                    yield dict(p=PID, backend=backend, dtype=dtype, parts=parts, nch=nch, steps=steps, npy_order=npy_order,
+                               base=['ids', 'extreme'][(k // 2) % 2], offset=[0, 6, 0, 128][(k // 4) % 4])
     # random derivation trees
     for _ in range(3000 if q else 40000):
-        dtype = rng.pick(DTYPES)
+        dtype = rng.pick(DTYPES + DTYPES + SWAPPED)
         backend = rng.pick(['flat', 'flat', 'array', 'npy'] + (['cbin'] if dtype == 'int16' else []))
-        parts = [rng.randrange(1, 5) for _ in range(rng.randrange(1, 4))] if backend == 'flat' else [rng.randrange(2, 9)]
-        nch = rng.randrange(2, 5)
+        parts = [rng.randrange(1, 5) for _ in range(rng.randrange(1, 4))] if backend == 'flat' else [rng.randrange(1 if backend != 'cbin' else 2, 9)]
+        nch = rng.randrange(1, 5)
         n = sum(parts)
         widths = [nch]
-        isf = [dtype.startswith('float')]
+        isf = [_native(dtype).kind == 'f']
         steps = []
         for _ in range(rng.randrange(2, 7 if q else 9)):
             src = rng.randrange(len(widths))
@@ -422,11 +488,12 @@ def gen(tier, rng):
             for _ in range(rng.randrange(1, 4)):
                 rdr = rng.randrange(len(widths))
                 it = rng.pick(items_for(n, rng, 2, backend == 'cbin'))
-                ev = {'k': 'eval', 'reader': rdr, 'item': it, 'kind': rng.pick(['py', 'np']) if backend != 'cbin' else 'py'}
+                ev = {'k': 'eval', 'reader': rdr, 'item': it, 'kind': rng.pick(EVALKINDS) if backend != 'cbin' else 'py'}
                 if rng.random() < .3:
                     sel = [c for c in col_selectors(widths[rdr], rng) if c is not None and len(np.arange(widths[rdr])[_pycols(c, 'py')]) > 0]
                     ev['cols'] = rng.pick(sel)
                 steps.append(ev)
         if any(s['k'] == 'eval' for s in steps):
             yield dict(p=PID, backend=backend, dtype=dtype, parts=parts, nch=nch, steps=steps,
+                       npy_order=rng.pick(['C', 'F']),
                        base=rng.pick(['ids', 'extreme', 'extreme']), offset=rng.pick([0, 0, 10, 64]))
